@@ -256,7 +256,7 @@ func main() {
 	if *replay != "" {
 		os.Exit(doReplay(*prop, *replay))
 	}
-	budget := ev.EnvDur("VERIF_BUDGET", map[string]time.Duration{"quick": 300 * time.Second, "thorough": 20 * time.Minute}[*tier])
+	budget := ev.EnvDur("VERIF_BUDGET", map[string]time.Duration{"quick": 600 * time.Second, "thorough": 20 * time.Minute}[*tier])
 	start := time.Now()
 	col := ev.NewCollector(*prop, *tier, "model_checking")
 	if *list == "" {
@@ -279,7 +279,15 @@ func main() {
 			share = 2 * time.Second
 		}
 		if *tier == "quick" {
-			share = left // depths are tuned to finish; the budget is only a safety net
+			// depths are tuned to finish well inside the budget (2-4 min in all); on a loaded machine one slow search
+			// must not starve the ones after it: at most four equal shares of what is left for any single search
+			share *= 4
+			if share < 20*time.Second {
+				share = 20 * time.Second
+			}
+			if share > left {
+				share = left
+			}
 		}
 		res, err := raftmc.RunSearch(s, *prop, workers, time.Now().Add(share), col)
 		if err != nil {
